@@ -110,4 +110,45 @@ LayoutKeepsFocus(foc, post, pend, first) ==
 \* a valid focus assignment puts the focus on the assigned child: at once (foc) and still after the next layout (post)
 AssignmentTakesEffect(foc, post, pend, target, want) ==
   FocusOf(foc, target) = want /\ (Has(post, target) => (Node(post, target).focus = want \/ CursorPlaced(post, pend, target)))
+
+(* ---- a cursor sent into a Columns (Columns.move_cursor_to_coords: "choose a selectable column to focus based on the coords") ---- *)
+(* A parent that moves its focus onto a Columns with up / down / page keys (Pile.keypress, ListBox.change_focus) hands it the         *)
+(* preferred cursor column.  m records one such call:                                                                              *)
+(*   widths (what column_widths() answers: 0 = the column is hidden, scrolled out on the left because the focus is far right;       *)
+(*   columns cut off on the right are not listed), sel / acc per listed column (selectable(); acc 1: takes a cursor at any cell,     *)
+(*   0: refuses every cell, 2: a container, unknown), div (dividechars), colk / col (the coordinate: "int" with col, "left",        *)
+(*   "right", "other"), before / after (focus_position, 0-based), ret (1: the move succeeded).                                       *)
+(* The columns lie side by side: column i covers [X(i), X(i) + widths[i]).  A hidden column is not drawn and neither is its          *)
+(* divider; Columns.get_pref_col and move_cursor_to_coords nevertheless count the dividers of hidden columns.  The contract leaves   *)
+(* this open (g = 0: as drawn, g = 1: hidden dividers counted) and accepts the choice either geometry leads to.                      *)
+SetMin(S) == CHOOSE x \in S : \A y \in S : x <= y
+SetMax(S) == CHOOSE x \in S : \A y \in S : x >= y
+RECURSIVE ColX(_, _, _)
+ColX(m, g, i) == IF i = 1 THEN 0
+                 ELSE ColX(m, g, i - 1) + m.widths[i - 1] + (IF m.widths[i - 1] > 0 \/ g = 1 THEN m.div ELSE 0)
+MoveCands(m) == {i \in 1..Len(m.widths) : m.sel[i] = 1}
+\* the column(s) (1-based) the coordinate names: the selectable column that contains it, else the nearest selectable one (distance to
+\* a column on the left: cells between its right edge and col; to one on the right: cells up to its left edge; a tie may go either way)
+MovePicks(m, g) ==
+  LET C  == MoveCands(m)
+      Ls == {i \in C : ColX(m, g, i) <= m.col}
+      Rs == {i \in C : ColX(m, g, i) > m.col}
+  IN IF C = {} THEN {}
+     ELSE IF m.colk = "left" THEN {SetMin(C)}
+     ELSE IF m.colk = "right" THEN {SetMax(C)}
+     ELSE IF Ls = {} THEN {SetMin(Rs)}
+     ELSE IF Rs = {} THEN {SetMax(Ls)}
+     ELSE LET L == SetMax(Ls)  R == SetMin(Rs)
+              dl == m.col - (ColX(m, g, L) + m.widths[L])  dr == ColX(m, g, R) - m.col
+          IN IF dl < 0 THEN {L} ELSE IF dl < dr THEN {L} ELSE IF dl > dr THEN {R} ELSE {L, R}
+MovePicksAny(m) == MovePicks(m, 0) \cup MovePicks(m, 1)
+\* a successful move leaves the focus on the column the coordinate names (a selectable one by construction - never on a column
+\* counted in some other list, e.g. among the shown columns only); a refused move changes no focus; a move is refused only when
+\* there is no selectable column or the chosen column's widget did not take the cursor
+MoveOk(m) ==
+  /\ m.ret = 0 => m.after = m.before
+  /\ (m.ret = 1 /\ m.colk # "other") => (m.after + 1) \in MovePicksAny(m)
+  /\ m.ret = 1 => MoveCands(m) # {}
+  /\ (m.ret = 0 /\ m.colk # "other" /\ MoveCands(m) # {}) => \E i \in MovePicksAny(m) : m.acc[i] # 1
+MovesOk(moves) == \A j \in 1..Len(moves) : MoveOk(moves[j])
 =================================================================================
